@@ -412,6 +412,9 @@ def fixture_selftest(run: Run) -> None:
 
 V = "d42/validation/_validator.py"
 MUTANTS = [
+    {"name": "validator looks dict members up by exception instead of a membership test", "rule": "NO-WRITE",
+     "edits": [("d42/validation/_validator.py", "            if key in value:\n                nested_path = deepcopy(path)[key]\n                res = val.__accept__(self, value=value[key], path=nested_path, **kwargs)\n                result.add_errors(res.get_errors())\n            else:\n                if not is_optional:\n                    result.add_error(MissingKeyValidationError(path, value, key))",
+                "            try:\n                member = value[key]\n            except KeyError:\n                if not is_optional:\n                    result.add_error(MissingKeyValidationError(path, value, key))\n            else:\n                nested_path = deepcopy(path)[key]\n                res = val.__accept__(self, value=member, path=nested_path, **kwargs)\n                result.add_errors(res.get_errors())")]},
     {"name": "list copy removed (F2 reverted)", "rule": "NO-ALIAS-IN",
      "edits": [("d42/declaration/types/_list_schema.py", "elements=list(elements_or_type)", "elements=elements_or_type")]},
     {"name": "Props.update in place", "rule": "COPY-ON-WRITE",
